@@ -511,10 +511,14 @@ def register(reg):
             off = 1 if tokname == 'macro' else V.slen(v['parsing_state'].fields['comment_start'])
             ctx.assume(z3.And(n >= (1 if tokname == 'macro' else 0), a + zint(off) + n <= e))
             b = simp(a + zint(off))
-            return mk_token(it, tokname, V.sslice(ctx, s, b, simp(b + n)), a, e, V.sslice(ctx, s, p0, a),
-                            V.sslice(ctx, s, simp(b + n), e))
+            t = mk_token(it, tokname, V.sslice(ctx, s, b, simp(b + n)), a, e, V.sslice(ctx, s, p0, a),
+                         V.sslice(ctx, s, simp(b + n), e))
+            ctx.ghost['last_token'] = t
+            return t
         if kind == 1:      # char
-            return mk_token(it, 'char', V.sslice(ctx, s, a, e), a, e, V.sslice(ctx, s, p0, a))
+            t = mk_token(it, 'char', V.sslice(ctx, s, a, e), a, e, V.sslice(ctx, s, p0, a))
+            ctx.ghost['last_token'] = t
+            return t
         # everything else: braces, math delimiters, specials, environments
         OTHER = ['specials', 'brace_open', 'brace_close', 'mathmode_inline', 'mathmode_display', 'begin_environment',
                  'end_environment']
@@ -523,7 +527,9 @@ def register(reg):
             arg = mk_specials_spec(it, 'sspec')
         else:
             arg = it.fresh_str('tokarg')
-        return mk_token(it, tk, arg, a, e, V.sslice(ctx, s, p0, a))
+        t = mk_token(it, tk, arg, a, e, V.sslice(ctx, s, p0, a))
+        ctx.ghost['last_token'] = t
+        return t
 
     P0 = 'old(self._pos)'
     TOKEN_POST = [
